@@ -87,6 +87,12 @@ bool in_parallel()
     return t->team != nullptr && t->inline_depth == 0;
 }
 
+bool in_any_region()
+{
+    Thread* t = me();
+    return t->team != nullptr || t->inline_depth > 0;
+}
+
 uint64_t now_ns() { return G.clock_ns; }
 void clock_advance(uint64_t ns)
 {
